@@ -897,6 +897,14 @@ def predicted_marker(w, model, name, probe):
         if lab.startswith('Y:'):
             return ['yobj', lab[2:]]
         return None
+    if side == 'D' and kind == 'dumps':
+        # a str is written plain exactly when the class's own implicit resolvers give its text the str tag (the rule
+        # restated: a reference class shares whatever the serializer may share between classes)
+        lab = dispatch_rep(w, model.eff(name, 'rep'), model.eff(name, 'mrep'), str)
+        if lab is None or not lab.endswith('.represent_str'):
+            return None       # a harness callback (or nothing) represents str for this class: no statement about quoting
+        pred = predict_tag(model, name, arg)
+        return None if pred is NOPRED else ['plain', pred == STR_TAG]
     if side == 'D' and kind == 'dump':
         t = w['types'].get(arg)
         if t is None:
@@ -916,6 +924,11 @@ def predicted_marker(w, model, name, probe):
 def marker_matches(w, model, pred, got):
     if pred[0] == 'tag':
         return got == pred
+    if pred[0] == 'plain':
+        if got[0] != 'text':
+            return True       # the dump failed for a reason of its own: nothing to conclude
+        quoted = got[1][:1] in ('"', "'") or got[1].startswith('!!') or got[1].startswith('!')
+        return quoted != pred[1]
     if pred[0] == 'nested':
         if got[0] == 'exc':
             return True       # e.g. a marker made the key unhashable elsewhere: nothing to conclude
